@@ -1092,6 +1092,62 @@ def _part_dups(ctx, item):
 
 
 # ---------------------------------------------------------------------------
+# Part B2: long chains (longer than the walker's 5-commit slop) on tied / monotone clocks, every include/exclude pair
+
+
+def _chain_shapes(L):
+    chain = [()] + [(i - 1,) for i in range(1, L)]
+    # a side branch that leaves at 1 and is merged back at L-2
+    side = list(chain)
+    side.append((1,))            # L
+    side.append((L,))            # L+1
+    side[L - 2] = (L - 3,)       # keep the numbering topological: the merge is a new tip instead
+    side.append((L - 1, L + 1))  # L+2 = merge(tip, side)
+    # two roots joined at the top
+    two = list(chain) + [()] + [(L,)] + [(L - 1, L + 1)]
+    return [("chain", chain), ("chain+side-branch", side), ("two-roots", two)]
+
+
+def _part_chains(ctx, item):
+    L, salt_i = item
+    for name, parents in _chain_shapes(L):
+        n = len(parents)
+        depth = []
+        for i, ps in enumerate(parents):
+            depth.append(1 + max((depth[p] for p in ps), default=-1))
+        clocks = {
+            "all-equal": [0] * n,
+            "pairs-equal": [d // 2 for d in depth],
+            "triples-equal": [d // 3 for d in depth],
+            "strict": list(depth) if name == "chain" else [2 * d + (i % 2) for i, d in enumerate(depth)],
+        }
+        for cname, ranks in clocks.items():
+            times = [T0 + STEP * r for r in ranks]
+            g = build_fast(parents, times, b"chain%d" % salt_i)
+            if not g.monotone:
+                raise HarnessError(f"chain clock {cname} is not monotone")
+            nq = 0
+            for a in range(n):
+                for b in range(n):
+                    if a == b:
+                        continue
+                    judge_walk(ctx, g, dict(include=[a], exclude=[b]))
+                    nq += 1
+                    if (a + b + salt_i) % 5 == 0:
+                        judge_walk(ctx, g, dict(include=[a, (a + 3) % n], exclude=[b], order="topo"))
+                        judge_walk(ctx, g, dict(include=[a], exclude=[b], since=times[min(a, b)]))
+                        judge_walk(ctx, g, dict(include=[a], exclude=[b, (b + 2) % n], reverse=True))
+                        nq += 3
+                    judge_graph(ctx, g, "cff", (a, b))
+                    nq += 1
+                judge_walk(ctx, g, dict(include=[a], since=times[a // 2]))
+                judge_walk(ctx, g, dict(include=[a], order="topo", max_entries=6))
+                nq += 2
+            ctx.case(None, nontrivial=True, n=nq, labels=["chains:" + name, "chains-clock:" + cname, "walk:exclude(monotone:exact)"],
+                     sample=dict(shape=name, length=L, clock=cname) if salt_i == 0 and L == 9 else None)
+
+
+# ---------------------------------------------------------------------------
 
 
 def selftest(ctx):
@@ -1147,6 +1203,7 @@ def run(ctx):
     else:
         timed("exhaustive_n=5", _part_exhaustive, [(5, (0.5, 3), (16, 10), 2, ns * 4, k) for k in range(ns * 4)])
     timed("dups", _part_dups, [0])
+    timed("chains", _part_chains, [(L, k) for L in ctx.scale((7, 9, 12), (7, 8, 9, 12, 16, 24)) for k in range(ctx.scale(4, 8))])
     timed("generated_memory", _part_generated, [(ctx.scale(150, 3000), ctx.scale(40, 300), False)] * 16)
     timed("generated_disk_git", _part_generated, [(ctx.scale(40, 1200), ctx.scale(24, 60), True)] * 16)
 
